@@ -1,0 +1,8 @@
+//go:build verif
+
+// Contracts for the deductive verifier under /verif (comment-only file).
+package x86
+
+// C10: the argument spill area of a generated encoder frame is exactly the words of the
+// Encoder signature (whose pointer bitmap is vars.ArgPtrs).
+//@ datainv fp_args_encoder props C10: _FP_args == 8 * argwords(vars.Encoder)
